@@ -210,7 +210,7 @@ StateClausesW(s, e, t, connS, connT) ==
         IsCmd(e) /\ connS => connT),
     Cl("C03_HeadKept", {"C03"}, IsCmd(e) /\ connS /\ HeadHasCommit(s.st),
         IsCmd(e) /\ connS /\ HeadHasCommit(s.st) => HeadHasCommit(T)),     \* HEAD never goes from a branch with a commit to a branch that does not exist
-    Cl("C05_CatTree", {"C05"}, HasObs(t, "catfile") /\ \E id \in DOMAIN t.obs.catfile : Obj(T, id).k = "tree",
+    Cl("C05_CatTree", {"C05", "C01"}, HasObs(t, "catfile") /\ \E id \in DOMAIN t.obs.catfile : Obj(T, id).k = "tree",
         HasObs(t, "catfile") =>
             \A id \in DOMAIN t.obs.catfile :
                LET o == Obj(T, id)  cf == t.obs.catfile[id] IN
@@ -377,7 +377,7 @@ StageClausesW(s, e, t, connS, connT) ==
         isRestoreS == e.ev = "restores" /\ Dom(e) /\ connS /\ HeadHasCommit(S)
     IN
     <<
-    Cl("C04_AddExact", {"C04", "C17", "C02"}, isAdd /\ Ok(e),
+    Cl("C04_AddExact", {"C04", "C17", "C02", "C06"}, isAdd /\ Ok(e),
         isAdd /\ Ok(e) => AddExact(s, t, ArgSet(e))),
     Cl("C04_AddRefuse", {"C04", "C18"}, isAdd /\ \E a \in ArgSet(e) : ~ArgKnownToAdd(S, a),
         isAdd /\ (\E a \in ArgSet(e) : ~ArgKnownToAdd(S, a)) => Refused(e) /\ Unchanged(s, t)),
